@@ -60,6 +60,11 @@ def _zoo():
               [], 0, 1.01, 1.01))
     Z.append(('HONmm2d', crystal.Crystal(tri, [[np.array([1 / 3, 1 / 3, 0]), np.array([2 / 3, 2 / 3, 0])],
                                                [np.zeros(3)]], ['A', 'B']), [], 0, 0.6, 0.6))
+    # cluster cutoff reaching a lattice vector, jumps between different basis sites that cross cell boundaries
+    Z.append(('DIA2', crystal.Crystal(fcc.lattice, [np.zeros(3), np.array([.25, .25, .25])], ['C']),
+              [], 0, 0.75, 0.45))
+    Z.append(('HONx2d', crystal.Crystal(tri, [np.array([1 / 3, 1 / 3, 0]), np.array([2 / 3, 2 / 3, 0])], ['A']),
+              [], 0, 1.01, 0.6))
     # more spectator than mobile sites per cell (Nspec > Nmobile)
     Z.append(('TRICLs', crystal.Crystal(low, tb, ['A', 'B']), [0], 1, 1.05, 1.05))
     Z.append(('HONm2d', crystal.Crystal(tri, [[np.array([1 / 3, 1 / 3, 0]), np.array([2 / 3, 2 / 3, 0])],
